@@ -90,6 +90,11 @@ pub fn install_panic_hook() {
 impl PanicInfo {
     /// true when the panic was raised from harness source (a bug in the machinery)
     pub fn in_harness(&self) -> bool {
+        // the harness AIR checks what the library hands it against the `Air` trait's contract
+        // (frame widths, result lengths); such a panic is the library's doing, not a harness bug
+        if self.msg.starts_with("AIR-CONTRACT:") {
+            return false;
+        }
         !(self.file.starts_with(&repo_root())
             || self.file.contains("/rustc/")
             || self.file.contains("/library/")
